@@ -1,7 +1,7 @@
 """C18 - a dump that fails validation leaves the destination file untouched."""
 import os
 
-from domains import KINDS, make_value, in_domain
+from domains import OBJECT_KINDS as KINDS, make_value, in_domain
 import C06
 
 PROPERTY = "C18"
